@@ -1,0 +1,136 @@
+//go:build verif
+
+package frontend
+
+// Contracts for the govc verifier (/verif/DESIGN.md). Package clause and comments only.
+//
+// C09: the default parse context admits read-only queries only. The argument is a chain; each link is a
+// contract on a real function, the composition (and ANTLR's tree walker calling EnterEveryRule for every
+// rule node) is stated in DESIGN.md:
+//   1. DefaultCypherContext installs the updating-clause, the two procedure-invocation and the parameter
+//      filters, each wired to the new context;
+//   2. Context.EnterEveryRule hands the rule context to every installed filter (dispatched);
+//   3. the generated EnterRule of those four rules notifies a CypherListener (cypher/parser contracts);
+//   4. each filter's Enter method appends a non-nil error to its context;
+//   5. AddErrors appends exactly the non-nil arguments and nothing ever removes an error;
+//   6. parseCypher returns a non-nil error whenever the context holds a non-nil error; ParseCypher rejects
+//      blank input.
+
+//@ import antlr "github.com/antlr4-go/antlr/v4"
+//@ import parser "github.com/specterops/dawgs/cypher/parser"
+//@ import cypher "github.com/specterops/dawgs/cypher/models/cypher"
+
+// the package-level sentinel errors are initialised with errors.New and never reassigned
+//@ axiom sentinels: ErrUpdateClauseNotSupported != nil && ErrUserSpecifiedParametersNotSupported != nil && ErrProcedureInvocationNotSupported != nil && ErrInvalidInput != nil
+
+// isFilter: the listener is one of the five filter types (they embed BaseVisitor and override one Enter method).
+//@ pure func isFilter(l Visitor) bool {
+//@   typeof(l) == *UpdatingNotAllowedClauseFilter || typeof(l) == *UpdatingClauseFilter || typeof(l) == *ExplicitProcedureInvocationFilter || typeof(l) == *ImplicitProcedureInvocationFilter || typeof(l) == *SpecifiedParametersFilter
+//@ }
+//@ pure func errorsNonNil(c *Context) bool { forall i int :: 0 <= i && i < len(c.Errors) ==> c.Errors[i] != nil }
+
+// ghost: the set of listeners a rule context has been handed to
+//@ ghost comp dispatched set[int]
+//@ ghost comp ctxOf int
+
+//@ iface func (c antlr.ParserRuleContext) EnterRule(listener antlr.ParseTreeListener)
+//@   modifies dispatched[c], all(Context.Errors), all(Context.visitorStack), all(elems:error), all(elems:*github.com/specterops/dawgs/cypher/frontend.descentEntry), all(descentEntry.depth), all(descentEntry.visitor)
+//@   ensures dispatched[c] == old(dispatched[c]) union {listener}
+//@   ensures filtersLeaveTheStackAlone: isFilter(listener) ==> (forall x *Context :: len(x.visitorStack) == old(len(x.visitorStack)) && x.visitorStack.arr == old(x.visitorStack.arr) && x.visitorStack.off == old(x.visitorStack.off)) && (forall x *Context; i int :: 0 <= i && i < len(x.visitorStack) ==> x.visitorStack[i] == old(x.visitorStack[i]))
+//@ iface func (v Visitor) SetContext(ctx *Context)
+//@   modifies ctxOf[v], all(BaseVisitor.ctx), all(UpdatingNotAllowedClauseFilter.BaseVisitor.ctx), all(UpdatingClauseFilter.BaseVisitor.ctx), all(ExplicitProcedureInvocationFilter.BaseVisitor.ctx), all(ImplicitProcedureInvocationFilter.BaseVisitor.ctx), all(SpecifiedParametersFilter.BaseVisitor.ctx)
+//@   ensures ctxOf[v] == ctx
+//@   ensures typeof(v) == *UpdatingNotAllowedClauseFilter ==> v.(*UpdatingNotAllowedClauseFilter).BaseVisitor.ctx == ctx
+//@   ensures typeof(v) == *ExplicitProcedureInvocationFilter ==> v.(*ExplicitProcedureInvocationFilter).BaseVisitor.ctx == ctx
+//@   ensures typeof(v) == *ImplicitProcedureInvocationFilter ==> v.(*ImplicitProcedureInvocationFilter).BaseVisitor.ctx == ctx
+//@   ensures typeof(v) == *SpecifiedParametersFilter ==> v.(*SpecifiedParametersFilter).BaseVisitor.ctx == ctx
+
+//@ func (s *BaseVisitor) SetContext(ctx *Context)
+//@   requires s != nil
+//@   modifies s.ctx
+//@   ensures s.ctx == ctx
+
+//@ func (s *Context) AddErrors(errs ...error)
+//@   requires s != nil && errorsNonNil(s) && (errs.arr == nil || errs.arr != s.Errors.arr)
+//@   modifies s.Errors, all(elems:error)
+//@   ensures nonNil: errorsNonNil(s)
+//@   ensures appendOnly: len(s.Errors) >= old(len(s.Errors)) && (forall i int :: 0 <= i && i < old(len(s.Errors)) ==> s.Errors[i] == old(s.Errors[i]))
+//@   ensures added: (exists j int :: 0 <= j && j < len(errs) && old(errs[j]) != nil) ==> len(s.Errors) > old(len(s.Errors))
+//@   ensures nothingFromNil: (forall j int :: 0 <= j && j < len(errs) ==> old(errs[j]) == nil) ==> len(s.Errors) == old(len(s.Errors))
+//@   ensures single: len(errs) == 1 && old(errs[0]) != nil ==> len(s.Errors) == old(len(s.Errors)) + 1 && s.Errors[old(len(s.Errors))] == old(errs[0])
+//@   loop 0
+//@     invariant range: -1 <= rangeindex && rangeindex < len(errs)
+//@     invariant nonNil: errorsNonNil(s)
+//@     invariant appendOnly: len(s.Errors) >= old(len(s.Errors)) && (forall i int :: 0 <= i && i < old(len(s.Errors)) ==> s.Errors[i] == old(s.Errors[i]))
+//@     invariant added: (exists j int :: 0 <= j && j <= rangeindex && errs[j] != nil) ==> len(s.Errors) > old(len(s.Errors))
+//@     invariant nothingFromNil: (forall j int :: 0 <= j && j <= rangeindex ==> errs[j] == nil) ==> len(s.Errors) == old(len(s.Errors))
+//@     invariant single: len(errs) == 1 && errs[0] != nil ==> (rangeindex == -1 ==> len(s.Errors) == old(len(s.Errors))) && (rangeindex == 0 ==> len(s.Errors) == old(len(s.Errors)) + 1 && s.Errors[old(len(s.Errors))] == errs[0])
+//@     invariant errsSame: forall j int :: 0 <= j && j < len(errs) ==> errs[j] == old(errs[j])
+//@     invariant owned: (s.Errors.arr == old(s.Errors.arr) || fresh(s.Errors.arr)) && (errs.arr == nil || errs.arr != s.Errors.arr)
+
+// ---- the filters --------------------------------------------------------------------------------------------------
+
+//@ func (s *UpdatingNotAllowedClauseFilter) EnterOC_UpdatingClause(ctx *parser.OC_UpdatingClauseContext)
+//@   requires s != nil && s.BaseVisitor.ctx != nil && errorsNonNil(s.BaseVisitor.ctx)
+//@   modifies s.BaseVisitor.ctx.Errors, all(elems:error)
+//@   ensures len(s.BaseVisitor.ctx.Errors) > old(len(s.BaseVisitor.ctx.Errors)) && errorsNonNil(s.BaseVisitor.ctx)
+//@ func (s *ExplicitProcedureInvocationFilter) EnterOC_ExplicitProcedureInvocation(ctx *parser.OC_ExplicitProcedureInvocationContext)
+//@   requires s != nil && s.BaseVisitor.ctx != nil && errorsNonNil(s.BaseVisitor.ctx)
+//@   modifies s.BaseVisitor.ctx.Errors, all(elems:error)
+//@   ensures len(s.BaseVisitor.ctx.Errors) > old(len(s.BaseVisitor.ctx.Errors)) && errorsNonNil(s.BaseVisitor.ctx)
+//@ func (s *ImplicitProcedureInvocationFilter) EnterOC_ImplicitProcedureInvocation(ctx *parser.OC_ImplicitProcedureInvocationContext)
+//@   requires s != nil && s.BaseVisitor.ctx != nil && errorsNonNil(s.BaseVisitor.ctx)
+//@   modifies s.BaseVisitor.ctx.Errors, all(elems:error)
+//@   ensures len(s.BaseVisitor.ctx.Errors) > old(len(s.BaseVisitor.ctx.Errors)) && errorsNonNil(s.BaseVisitor.ctx)
+//@ func (s *SpecifiedParametersFilter) EnterOC_Parameter(ctx *parser.OC_ParameterContext)
+//@   requires s != nil && s.BaseVisitor.ctx != nil && errorsNonNil(s.BaseVisitor.ctx)
+//@   modifies s.BaseVisitor.ctx.Errors, all(elems:error)
+//@   ensures len(s.BaseVisitor.ctx.Errors) > old(len(s.BaseVisitor.ctx.Errors)) && errorsNonNil(s.BaseVisitor.ctx)
+
+// ---- construction ---------------------------------------------------------------------------------------------------
+
+//@ func NewContext(filters ...Visitor) *Context
+//@   requires forall i int :: 0 <= i && i < len(filters) ==> filters[i] != nil
+//@   modifies all(ghost:g.ctxOf), all(BaseVisitor.ctx), all(UpdatingNotAllowedClauseFilter.BaseVisitor.ctx), all(UpdatingClauseFilter.BaseVisitor.ctx), all(ExplicitProcedureInvocationFilter.BaseVisitor.ctx), all(ImplicitProcedureInvocationFilter.BaseVisitor.ctx), all(SpecifiedParametersFilter.BaseVisitor.ctx)
+//@   ensures result != nil && fresh(result) && len(result.Errors) == 0 && len(result.visitorStack) == 0
+//@   ensures result.filters.arr == filters.arr && result.filters.off == filters.off && len(result.filters) == len(filters)
+//@   ensures wired: forall i int :: 0 <= i && i < len(filters) ==> ctxOf[filters[i]] == result
+//@   loop 0
+//@     invariant range: -1 <= rangeindex && rangeindex < len(filters)
+//@     invariant wired: forall i int :: 0 <= i && i <= rangeindex ==> ctxOf[filters[i]] == ctx
+//@     invariant ctx: ctx != nil && fresh(ctx) && len(ctx.Errors) == 0 && len(ctx.visitorStack) == 0 && ctx.filters.arr == filters.arr && ctx.filters.off == filters.off && len(ctx.filters) == len(filters)
+
+//@ func DefaultCypherContext() *Context
+//@   modifies all(ghost:g.ctxOf), all(BaseVisitor.ctx), all(UpdatingNotAllowedClauseFilter.BaseVisitor.ctx), all(UpdatingClauseFilter.BaseVisitor.ctx), all(ExplicitProcedureInvocationFilter.BaseVisitor.ctx), all(ImplicitProcedureInvocationFilter.BaseVisitor.ctx), all(SpecifiedParametersFilter.BaseVisitor.ctx)
+//@   ensures result != nil && len(result.Errors) == 0
+//@   ensures allFilters: forall i int :: 0 <= i && i < len(result.filters) ==> result.filters[i] != nil && isFilter(result.filters[i]) && ctxOf[result.filters[i]] == result
+//@   ensures hasUpdatingFilter: exists i int :: {:witness 0, 1, 2, 3, 4, 5, 6, 7} 0 <= i && i < len(result.filters) && typeof(result.filters[i]) == *UpdatingNotAllowedClauseFilter
+//@   ensures hasExplicitProcedureFilter: exists i int :: {:witness 0, 1, 2, 3, 4, 5, 6, 7} 0 <= i && i < len(result.filters) && typeof(result.filters[i]) == *ExplicitProcedureInvocationFilter
+//@   ensures hasImplicitProcedureFilter: exists i int :: {:witness 0, 1, 2, 3, 4, 5, 6, 7} 0 <= i && i < len(result.filters) && typeof(result.filters[i]) == *ImplicitProcedureInvocationFilter
+//@   ensures hasParameterFilter: exists i int :: {:witness 0, 1, 2, 3, 4, 5, 6, 7} 0 <= i && i < len(result.filters) && typeof(result.filters[i]) == *SpecifiedParametersFilter
+
+// ---- dispatch ---------------------------------------------------------------------------------------------------------
+
+//@ func (s *Context) EnterEveryRule(ctx antlr.ParserRuleContext)
+//@   requires s != nil && ctx != nil
+//@   requires stack: len(s.visitorStack) >= 1 && (forall i int :: 0 <= i && i < len(s.visitorStack) ==> s.visitorStack[i] != nil)
+//@   requires filters: forall i int :: 0 <= i && i < len(s.filters) ==> s.filters[i] != nil && isFilter(s.filters[i])
+//@   modifies dispatched[ctx], all(Context.Errors), all(Context.visitorStack), all(elems:error), all(elems:*github.com/specterops/dawgs/cypher/frontend.descentEntry), all(descentEntry.depth), all(descentEntry.visitor)
+//@   ensures allFiltersDispatched: forall i int :: 0 <= i && i < old(len(s.filters)) ==> old(s.filters[i]) in dispatched[ctx]
+//@   loop 0
+//@     invariant range: -1 <= rangeindex && rangeindex < len(s.filters)
+//@     invariant same: s.filters.arr == old(s.filters.arr) && s.filters.off == old(s.filters.off) && len(s.filters) == old(len(s.filters)) && (forall i int :: 0 <= i && i < len(s.filters) ==> s.filters[i] == old(s.filters[i]))
+//@     invariant done: forall i int :: 0 <= i && i <= rangeindex ==> s.filters[i] in dispatched[ctx]
+//@     invariant stack: len(s.visitorStack) >= 1 && (forall i int :: 0 <= i && i < len(s.visitorStack) ==> s.visitorStack[i] != nil)
+
+// ---- the entry points ------------------------------------------------------------------------------------------------------
+
+//@ func ParseCypher(ctx *Context, input string) (*cypher.RegularQuery, error)
+//@   requires ctx != nil
+//@   nosafety
+//@   ensures blank: len(trimmed(input)) == 0 ==> result.0 == nil && result.1 == ErrInvalidInput && result.1 != nil
+
+//@ func parseCypher(ctx *Context, input string) (*cypher.RegularQuery, error)
+//@   requires ctx != nil
+//@   nosafety
+//@   ensures errorsReachTheCaller: (exists i int :: 0 <= i && i < len(ctx.Errors) && ctx.Errors[i] != nil) ==> result.1 != nil
